@@ -34,9 +34,17 @@ SEEDS = {
            "a token stream that relies on the default time signature (sequences without a TIME_SIGNATURE tokenised directly, or hand-written/model tokens) spanning at least one bar"),
  "C12-a": ("C12", "MidiTrack.to_mido_track: `time_buffer = 0` deleted from the KEY_SIGNATURE branch; the accumulated wait is added again to the next emitted message",
            "a key signature with a non-zero delta time (after a wait, not coinciding with a note event) followed by at least one more message in the track"),
+ "C14-a": ("C14", "Sequence.transpose: the `self.invalidate_abs()` after the relative transposition removed (the `if shifted:` branch still normalises)",
+           "absolute view cached before the call, an interval that needs no octave wrapping, result read through an absolute-view accessor"),
+ "C15-a": ("C15", "normalise_relative: a note-on arriving while its (channel, pitch) is already open is skipped *before* being pushed on the nesting stack, so the first note-off closes the fused note",
+           "two merged sequences with strictly overlapping notes of the same channel and pitch: the fused note ends at the first end instead of the latest"),
+ "C19-a": ("C19", "get_info: parsing of the signature fields and the recomputation of the total bar capacity moved in front of the mid-bar guard; only the remaining capacity stays guarded",
+           "a time-signature token different from the current one while the bar is partly filled, followed by a bar token (streams not produced by tokenise)"),
 }
 
 INITIALLY_MISSED = {
+ "C14-a": "caught from the start by C04 (TS3); C14's own check missed it; VIEW obligations (typestate of the operation's Sequence wrapper) were added to C05-C08, C14, C15, C18",
+ "C15-a": "missed by the first versions of C15 and C07 (the keep/skip decisions are unchanged); the nesting-count rule (every note-on is counted, every note-off of an open note uncounted) was added to STACK and C15 now includes the STACK rules",
  "C03-a": "the first version of the C03 check aborted with ANALYSIS-ERROR (exit 2) on the tuple-unpack / update() idioms; the state extraction was generalised and now reports ST1",
  "C10-a": "detected from the start by CAP on the pad length; the first version additionally reported the harmless local `capacity` (no forward substitution) -- corrected",
  "C18-a": "missed by the first version of the C18 check (frame rules only); the sorted-list invariant rule SORT (and ABS-SORTED in C04) was added",
